@@ -184,6 +184,14 @@ def monitorHist (sc : HScn) (entries : List String) : List (String × String) :=
         match m.pauseAt with
         | some p => if t > p && t < p + sc.c.pause then m := m.add "C13" "batch-during-pause"
         | none => pure ()
+        -- C02: batches are raised by cycles, and a cycle runs on a FlushInterval tick since Start, at a resume, or at the
+        -- instant of a Flush() call of the user (v1 has no flush events: the batch instants stand for the cycles)
+        match m.started with
+        | some s0 =>
+          let onGrid := (t - s0) % sc.c.flushInt == 0
+          let atResume := match m.pauseAt with | some p => t == p + sc.c.pause | none => false
+          if !onGrid && !atResume && m.flushCallAt != some t then m := m.add "C02" "batch-released-off-the-flush-interval-grid"
+        | none => pure ()
         -- C05: the shape of a batch, judged on the trace alone
         let opW (o : Nat) : Nat := (sc.ops[o]?.map (·.w)).getD 0
         let opB (o : Nat) : Bool := (sc.ops[o]?.map (·.batchable)).getD true
